@@ -58,7 +58,10 @@ RULE_ADDED = (
               'n five ways; key runs reading the image through a pipe. '
               ' '
               'Round 18: loaded authorizations saved unmodified to a fresh path (or over anothe'
-              "r signer's file), and once more from the re-loaded object. ")
+              "r signer's file), and once more from the re-loaded object. "
+              ' '
+              "Round 20: honest Ethereum apps whose signature's r or s begins with 0x80, 0xff, "
+              '0x00 or 0x7f (nonces ground). ')
 RULE = RULE + " " + RULE_ADDED.strip()
 ASSUMPTIONS = [
     "own Keccak-256 (pv/oracle/hashes.py) and OpenSSL verification are the oracles",
@@ -533,6 +536,10 @@ class EthApp:
         self.other = _ec.SigningKey.from_secret_exponent(
             rng.getrandbits(255) + 3, curve=_ec.SECP256k1)
         self.signed = []
+        self.grind = rng.choice([None, None, ("r", 0x80), ("r", 0x80), ("r", 0x00),
+                                 ("r", 0xff), ("r", 0x7f), ("s", 0x00), ("s", 0x80)]) \
+            if mode == "honest" else None
+        self.ground = False
 
     def note_fault(self, apdu, fault):
         pass
@@ -560,6 +567,17 @@ class EthApp:
                 dg = keccak256(b"\x19Ethereum Signed Message:\n5hello")
             k = self.other if self.mode == "signs-with-another-key" else self.key
             sig = k.sign_digest_deterministic(dg, sigencode=self._ec.util.sigencode_string)
+            if self.mode == "honest" and self.grind is not None:
+                # a signature - any nonce gives a good one - whose r (or s) begins with a
+                # chosen byte: 0x80 and 0xff (sign bit set), 0x00 (a short integer), 0x7f
+                which, first = self.grind
+                for _ in range(5000):
+                    cand = k.sign_digest(dg, sigencode=self._ec.util.sigencode_string,
+                                         k=self.rng.randrange(1, self._ec.SECP256k1.order))
+                    if cand[0 if which == "r" else 32] == first:
+                        sig = cand
+                        self.ground = True
+                        break
             r, s_ = sig[:32], sig[32:]
             if self.mode == "s-altered":
                 s_ = bytes([s_[0] ^ 0x01]) + s_[1:]
@@ -603,6 +621,8 @@ def eth_runs(acc, rng, tmpdir, app2, it2, areas2, bad):
                     signed=[m[:60].decode("latin1") for m in app.signed])
                 return
             acc.count("eth_runs_with_an_honest_app")
+            if app.ground:
+                acc.count("eth_signatures_whose_r_or_s_begins_with_a_chosen_byte")
             continue
         acc.count("eth_runs_with_a_dishonest_app")
         if code == 0 or after != before:
